@@ -31,6 +31,8 @@ RULE = (
     "el) and is switched to the user under test by configure()."
     " (f) agents announcing msgMaxSize 484/500/1472 answer with responses of 300..1500 payloa"
     "d octets."
+    " Caller-given context engine ids that are not the agent's (block g); one credentials obj"
+    'ect shared by the clients of three engines in turn (block h).'
 )
 ASSUMPTIONS = [
     "the reference agent (vf/agent.py, vf/ber.py) is the independent RFC 3414 implementation; its key localisation and HMAC are self-checked on RFC 3414 A.3 / RFC 2202 vectors at start",
